@@ -463,16 +463,31 @@ def Disk.okOp (s : Disk) : DOp → Prop
     | none, none => True
   | .newRdbWriter _ size => 0 < size
   | .rdbAppend chunk =>
-    chunk ≠ [] ∧ ∀ r, s.rdb = some r → r.writing = true → r.data.length + chunk.length ≤ r.size
+    chunk ≠ [] ∧
+    match s.rdb with
+    | some r => r.writing = true → r.data.length + chunk.length ≤ r.size
+    | none => True
   | .aofAppend chunk => chunk ≠ []
   | .setRunId _ =>
-    s.runId ≠ "" → (∀ r ∈ s.readers, r.isOpen = false) ∧ s.live = none ∧
-      (∀ r, s.rdb = some r → r.writing = false)
+    s.runId ≠ "" → (s.readers.all (fun r => !r.isOpen) = true) ∧ s.live = none ∧
+      match s.rdb with
+      | some r => r.writing = false
+      | none => True
   | _ => True
+
+instance (s : Disk) (op : DOp) : Decidable (s.okOp op) := by
+  cases op <;> simp only [Disk.okOp] <;> try infer_instance
+  all_goals (repeat' split) <;> infer_instance
 
 def Disk.wf (s : Disk) : List DOp → Prop
   | [] => True
   | op :: rest => s.okOp op ∧ (s.step op).1.wf rest
+
+instance Disk.decWf : (s : Disk) → (ops : List DOp) → Decidable (s.wf ops)
+  | _, [] => isTrue trivial
+  | s, op :: rest =>
+    have := Disk.decWf (s.step op).1 rest
+    inferInstanceAs (Decidable (s.okOp op ∧ (s.step op).1.wf rest))
 
 /-- the abstraction: what the disk cache holds -/
 def Disk.abs (s : Disk) : Log :=
